@@ -766,6 +766,7 @@ class Grammar(Serialize):
         compiled_rules: List[Rule] = []
         for rule_content in rules:
             name, tree, options = rule_content
+            options = copy(options)     # Lark adjusts rule priorities in place; don't let that reach other compilations of this grammar
             simplify_rule.visit(tree)
             expansions = rule_tree_to_text.transform(tree)
 
